@@ -15,7 +15,7 @@ VERIF = os.path.dirname(os.path.dirname(os.path.abspath(__file__)))
 SPEC = os.path.join(VERIF, "spec")
 WORK = os.path.join(os.environ.get("VERIF_OUT", VERIF), ".work")
 
-TLC_CMD = ["java", "-XX:+UseParallelGC", "-Xmx12g", "-cp",
+TLC_CMD = ["java", "-XX:+UseParallelGC", "-Xmx12g", "-Xss256m", "-cp",
            "/opt/veriftools/tla/tla2tools.jar:/opt/veriftools/tla/CommunityModules-deps.jar", "tlc2.TLC"]
 
 
